@@ -236,13 +236,13 @@ func checkH5Trace(s string, toks []li.VerifH5Token, capped bool) string {
 func c17() *core.Check {
 	return &core.Check{
 		ID: "C17",
-		Rule: "(1) every HTML workload input is tokenised from all five contexts with a step cap and the trace is checked against the range/order/count inequalities; (2) for each delimited construct (<% %>, CDATA, comment, <! >, <? >, doctype, quoted values embedded and as start context) every body over {terminator bytes, NUL, filler, '<'} up to length 6 (thorough 9), behind three text prefixes, is compared with a first-terminator oracle written from the property text: token offset, token length, resume offset. " +
+		Rule: "(1) every HTML workload input is tokenised from all five contexts with a step cap and the trace is checked against the range/order/count inequalities; (2) for each delimited construct (<% %>, CDATA, comment, <! >, <? >, doctype, quoted values embedded and as start context) every body over {terminator bytes, NUL, filler, '<'} up to length 6 (thorough 10), behind three text prefixes, is compared with a first-terminator oracle written from the property text: token offset, token length, resume offset. " +
 			"Non-trivial = construct cases whose body holds at least one terminator byte, plus generic traces with >= 2 tokens; distinct by input.",
 		Plan: func(tier string, seed uint64) []core.Unit {
 			us := htmlPlan(htmlQuick, htmlThorough)(tier, seed)
 			lvl := 0
 			if tier == "thorough" {
-				lvl = 2
+				lvl = 3
 			}
 			return append(us, planDecoy(lvl)...)
 		},
